@@ -4,6 +4,7 @@ package main
 
 import (
 	"fmt"
+	"sort"
 	"go/types"
 	"strings"
 
@@ -11,10 +12,61 @@ import (
 )
 
 func (f *Frame) loopSpec(li *loopInfo) *LoopSpec {
-	if !f.top || f.vc.c == nil {
+	if f.vc.c == nil {
 		return nil
 	}
+	if !f.top {
+		// a loop of an inlined helper adopts a loop contract the function under contract no longer has a loop for
+		// (the loop was moved into the helper)
+		if f.adoptBase < 0 {
+			return nil
+		}
+		n := f.adoptBase + li.ordinal
+		f.vc.adoptedHit[n] = true
+		return f.vc.c.Loops[n]
+	}
 	return f.vc.c.Loops[li.ordinal]
+}
+
+// orphanLoops: ordinals of loop contracts beyond the loops the function under contract has itself.
+func (vc *VC) orphanLoops() []int {
+	if vc.c == nil || vc.topFrame == nil {
+		return nil
+	}
+	own := len(analyseCFG(vc.fn).headers)
+	var out []int
+	for n := range vc.c.Loops {
+		if n >= own {
+			out = append(out, n)
+		}
+	}
+	sort.Ints(out)
+	return out
+}
+
+// canAdopt: a helper without contract whose loops can take over the orphaned loop contracts (in order).
+func (vc *VC) canAdopt(fn *ssa.Function) (int, bool) {
+	if !vc.p.inModule(fn) || len(fn.Blocks) == 0 {
+		return -1, false
+	}
+	orph := vc.orphanLoops()
+	k := len(analyseCFG(fn).headers)
+	if k == 0 || len(orph) == 0 {
+		return -1, false
+	}
+	// first orphan not yet adopted; the helper's loops take consecutive ordinals from there
+	for _, n := range orph {
+		if vc.adoptedHit[n] {
+			continue
+		}
+		for j := 0; j < k; j++ {
+			if _, ok := vc.c.Loops[n+j]; !ok {
+				return -1, false
+			}
+		}
+		return n, true
+	}
+	return -1, false
 }
 
 // loopScope builds the scope for invariants of the loop at state st.
@@ -109,7 +161,7 @@ func (f *Frame) enterLoop(st *State, b *ssa.BasicBlock, li *loopInfo) *State {
 	if li.auto != nil {
 		vc.oblige(st, "inv-init", fmt.Sprintf("loop%d.rangeindex", li.ordinal), li.auto(st), nil, "built-in range-index invariant holds on entry", b.Instrs[0].Pos())
 	}
-	if !f.top {
+	if !f.top && spec == nil {
 		vc.unsupported("loop inside inlined function %s", f.fn.Name())
 	}
 	// 1. invariants hold on entry
